@@ -20,7 +20,7 @@ FAMS = gen.ALL_FAMILIES + ("flat",)
 
 
 def floors(tier):
-    return {"states_checked": 3000, "results_checked": 500, "restarts_checked": 100, "chains_whose_first_leg_returns_before_any_gradient": 40, "accepted_not_last_trial": 10, "scaled_runs": 30, "runs_with_reused_gradient_buffer": 80, "runs_with_logger": 200,
+    return {"states_checked": 3000, "results_checked": 500, "restarts_checked": 100, "chains_whose_first_leg_returns_before_any_gradient": 40, "accepted_not_last_trial": 10, "scaled_runs": 30, "runs_with_reused_gradient_buffer": 80, "runs_whose_objective_returns_one_reused_array_overwritten_by_the_gradient_code": 60, "runs_with_logger": 200,
             "callback_states_reinspected_after_the_run": 3000, "runs_from_a_start_beyond_unit_step_resolution": 12, "runs_that_could_not_leave_x0": 4, "results_with_non_finite_gradient": 10, "__nontrivial__": 40}
 
 
@@ -54,6 +54,8 @@ def cases(tier, seed):
             ps["start_scale"] = float(gen.pick(rng, [1e17, 1e18, 1e20]))
             cfg["jac"] = "callable"
             cfg["scaler"] = float(np.exp(rng.uniform(np.log(1e-3), np.log(1e3))))
+        if i % 9 == 5 and cfg["jac"] == "callable":
+            cfg["reuse_value_buffer"] = True  # the objective returns its value in one reused one-element array, which the gradient code overwrites
         if i % 4 == 2:
             cfg["logger"] = True  # a user-supplied logger: displays must not touch what is returned
             cfg["iprint"] = int(gen.pick(rng, [0, 0, 1, 3, 99, 101]))
@@ -196,6 +198,8 @@ def run(spec):
             break
         if cfg.get("reuse_grad_buffer"):
             out.count("runs_with_reused_gradient_buffer")
+        if cfg.get("reuse_value_buffer"):
+            out.count("runs_whose_objective_returns_one_reused_array_overwritten_by_the_gradient_code")
         if cfg.get("logger"):
             out.count("runs_with_logger")
         if P.spec["family"] == "sqrt_floor":
